@@ -162,20 +162,42 @@ def plan(seed, subbatch):
             shift += (-shift) % tf_s if tf else 0
     return {"format": 1, "property": ID, "seed": seed, "subbatch": subbatch,
             "config": {"kind": kind, "members": members, "base_s": base_s, "rungs": rungs, "sparse": sparse,
+                       # a lifespan that never evicts anything during the run, and / or timezone-aware timestamps:
+                       # the trimming step runs on every append and must stay O(1) whatever it finds
+                       "lifespan_s": (10 * (rows[-1][0] - rows[0][0] + 100 * tf_s) if rows and sub_rng(seed, "lifespan").random() < 0.2
+                                      else None),
+                       "utc_offset_min": sub_rng(seed, "aware").choice((None, None, None, 0, 60, -210)),
                        "probe_bare": sub_rng(seed, "probe-form").random() < 0.3,
                        "probe_ties": sub_rng(seed, "probe-ties").random() < 0.25},
             "ops": ops, "fired": dict(fired)}
 
 
 def _build(cfg):
+    from datetime import timedelta
+
+    life = cfg.get("lifespan_s")
     if cfg["kind"] == "indicator":
-        ind = build(cfg["members"][0], [])
+        spec = cfg["members"][0]
+        if life:
+            spec = dict(spec, common=dict(spec["common"], lifespan_s=life))
+        ind = build(spec, [])
         return ind, [ind]
     inds = [build(m) for m in cfg["members"]]
-    return Hexital("sim", [], inds), inds
+    kw = {"candles_lifespan": timedelta(seconds=life)} if life else {}
+    return Hexital("sim", [], inds, **kw), inds
 
 
 def execute(trace, ctx=None):
+    from .. import catalogue
+
+    catalogue.TZ_OFFSET_MIN = trace["config"].get("utc_offset_min")
+    try:
+        return _execute(trace)
+    finally:
+        catalogue.TZ_OFFSET_MIN = None
+
+
+def _execute(trace):
     def body(run):
         cfg = trace["config"]
         label = "+".join(spec_label(m) for m in cfg["members"])
